@@ -4,13 +4,35 @@
 
 package consts
 
+// C18/C01 (which outbounds are built in): exactly direct, block, must_rules, control-plane routing and the two
+// logical connectives are reserved; every other index - up to and including the last user-defined one - is a
+// user group. The names are the ones the configuration uses.
 //@ func (OutboundIndex).IsReserved
 //@   vpure
-//@   trusted
+//@   ensures result <==> (i == OutboundDirect || i == OutboundBlock || i == OutboundMustRules || i == OutboundControlPlaneRouting || i == OutboundLogicalOr || i == OutboundLogicalAnd)
 
 //@ func (OutboundIndex).String
 //@   vpure
-//@   trusted
+//@   ensures i == OutboundMustRules ==> result == "must_rules"
+//@   ensures i == OutboundDirect ==> result == "direct"
+//@   ensures i == OutboundBlock ==> result == "block"
+//@   ensures i == OutboundControlPlaneRouting ==> result == "<Control Plane Routing>"
+//@   ensures i == OutboundLogicalOr ==> result == "<OR>"
+//@   ensures i == OutboundLogicalAnd ==> result == "<AND>"
+//@   ensures i != OutboundMustRules && i != OutboundDirect && i != OutboundBlock && i != OutboundControlPlaneRouting && i != OutboundLogicalOr && i != OutboundLogicalAnd ==> strings.HasPrefix(result, "<index: ")
+
+//@ func (DnsRequestOutboundIndex).String
+//@   vpure
+//@   ensures i == DnsRequestOutboundIndex_Reject ==> result == "reject"
+//@   ensures i == DnsRequestOutboundIndex_AsIs ==> result == "asis"
+//@   ensures i == DnsRequestOutboundIndex_LogicalOr ==> result == "<OR>"
+//@   ensures i == DnsRequestOutboundIndex_LogicalAnd ==> result == "<AND>"
+//@ func (DnsResponseOutboundIndex).String
+//@   vpure
+//@   ensures i == DnsResponseOutboundIndex_Accept ==> result == "accept"
+//@   ensures i == DnsResponseOutboundIndex_Reject ==> result == "reject"
+//@   ensures i == DnsResponseOutboundIndex_LogicalOr ==> result == "<OR>"
+//@   ensures i == DnsResponseOutboundIndex_LogicalAnd ==> result == "<AND>"
 
 //@ func (IpVersionStr).ToIpVersionType
 //@   vpure
